@@ -65,6 +65,25 @@ prefix_seg = {0:0x26, 1:0x2E, 2:0x36, 3:0x3E, 4:0x64, 5:0x65}
 
 prefix_seg_inv = dict(map(lambda x:(x[1],x[0]), prefix_seg.items()))
 
+def string_keep_override(args, prefix):
+    # the explicit operands of a string instruction are dropped by the
+    # assembler; a segment override of the [esi] source becomes a prefix
+    if prefix is None:
+        return
+    for a in args:
+        if x86_afs.reg_dict[x86_afs.r_esi] in a and x86_afs.segm in a \
+                and a[x86_afs.segm] != x86_afs.reg_sg.index(x86_afs.r_ds):
+            prefix.append(prefix_seg[a[x86_afs.segm]])
+
+def string_src_segm(prefix):
+    # segment of the ds:[esi] operand of a string instruction: the last
+    # segment-override prefix, else ds (the es:[edi] operand cannot be overridden)
+    segm = x86_afs.reg_sg.index(x86_afs.r_ds)
+    for p in prefix:
+        if p in prefix_seg_inv:
+            segm = prefix_seg_inv[p]
+    return segm
+
 class mnemonic(object):
     def __init__(self, name, opc, afs, rm, modifs, modifs_orig, sem):
         self.name = name
@@ -2259,16 +2278,25 @@ class x86_mn(x86_mn_base):
 
         args = self.arg[:]
         # special case when the argument should be omitted
-        if len(args) == 1 and self.m.name in rep_sto_lod_sca:
+        # (a segment override of the source is only visible in the operands)
+        default_ds = x86_afs.reg_sg.index(x86_afs.r_ds)
+        if len(args) == 1 and self.m.name in rep_sto_lod_sca \
+                and not (self.m.name.startswith('lods') and args[0].get(x86_afs.segm) != default_ds):
             args[0:2] = []
         # special case when both arguments should be omitted
-        if len(args) == 2 and self.m.name in rep_mov_cmp and x86_afs.segm in args[0]:
+        if len(args) == 2 and self.m.name in rep_mov_cmp and x86_afs.segm in args[0] \
+                and args[1].get(x86_afs.segm) == default_ds:
             args[0:2] = []
+        elif len(args) == 2 and self.m.name in rep_mov_cmp and x86_afs.segm in args[0] \
+                and self.m.name.startswith('cmps'):
+            # cmps is written source ([esi]) first
+            args.reverse()
         # Implicit 'ax' argument
         if len(args) == 0 and self.m.name in ["fnstsw"]:
             args[0:1] = [r_ax]
         # Pseudo-Ops
-        elif mnemo[-1] in ['cmpps', 'cmppd', 'cmpsd', 'cmpss'] and len(args)==2:
+        elif mnemo[-1] in ['cmpps', 'cmppd', 'cmpsd', 'cmpss'] and len(args)==2 \
+                and self.m.modifs[mmx]:
             predicate = int(args[2][x86_afs.imm] & 7)
             mnemo[-1] = 'cmp' + mnemo_sse_cmp_predicate[predicate] + mnemo[-1][-2:]
             args = [ args[0], args[1] ]
@@ -2783,7 +2811,7 @@ class x86_mn(x86_mn_base):
                 self.arg = [{x86_afs.reg_dict[x86_afs.r_esi]:1,
                              x86_afs.ad:True,
                              x86_afs.size:s,
-                             x86_afs.segm:x86_afs.reg_sg.index(x86_afs.r_ds)}]
+                             x86_afs.segm:string_src_segm(self.prefix)}]
             if self.m.name.startswith("stos"):
                 if self.m.name[-1] == "b":
                     s = u08
@@ -2814,7 +2842,7 @@ class x86_mn(x86_mn_base):
                             {x86_afs.reg_dict[x86_afs.r_esi]:1,
                              x86_afs.ad:True,
                              x86_afs.size:s,
-                             x86_afs.segm:x86_afs.reg_sg.index(x86_afs.r_ds)}]
+                             x86_afs.segm:string_src_segm(self.prefix)}]
             if self.m.name.startswith("cmps"):
                 if self.m.name[-1] == "b":
                     s = u08
@@ -2832,7 +2860,7 @@ class x86_mn(x86_mn_base):
                             {x86_afs.reg_dict[x86_afs.r_esi]:1,
                              x86_afs.ad:True,
                              x86_afs.size:s,
-                             x86_afs.segm:x86_afs.reg_sg.index(x86_afs.r_ds)}]
+                             x86_afs.segm:string_src_segm(self.prefix)}]
             if self.m.name.startswith("scas"):
                 if self.m.name[-1] == "b":
                     s = u08
@@ -2909,7 +2937,7 @@ class x86_mn(x86_mn_base):
                     a[x86_afs.imm] = int32(uint32(a[x86_afs.imm]))
     arg_set_numpy_imm = classmethod(arg_set_numpy_imm)
 
-    def normalize_args(self, name, args):
+    def normalize_args(self, name, args, prefix=None):
         # special case ommiting 10 as argument
         if len(args) == 0 and name in ["aad", "aam"]:
             args.append( {x86_afs.imm:10, x86_afs.ad: False, x86_afs.size: x86_afs.u32} )
@@ -2941,11 +2969,13 @@ class x86_mn(x86_mn_base):
             args[1:2] = []
         # special case when the argument should be omitted
         if len(args) == 1 and name in rep_sto_lod_sca:
+            string_keep_override(args, prefix)
             args[0:2] = []
         # special case when both arguments should be omitted
         if len(args) == 2 and name in rep_mov_cmp \
                 and args[0][x86_afs.size] != x86_afs.xmm \
                 and args[1][x86_afs.size] != x86_afs.xmm:
+            string_keep_override(args, prefix)
             args[0:2] = []
         # "lea" has a specific syntax
         if name == "lea" and len(args) == 2:
@@ -3466,7 +3496,7 @@ class x86_mn(x86_mn_base):
         x86_mn.arg_set_numpy_imm(args)
         log.debug("name: %s", name)
         log.debug("args: %s", args)
-        x86_mn.normalize_args(name, args)
+        x86_mn.normalize_args(name, args, prefix)
         co = self.asm_candidates(prefix, name, [a.copy() for a in args])
         ac = self.asm_all_candidate(prefix, co)
         return [x[0] for x in ac]
@@ -3492,7 +3522,7 @@ class x86_mn(x86_mn_base):
         log.debug("name: %s", name)
         log.debug("args: %s", args)
         
-        self.normalize_args(name, args)
+        self.normalize_args(name, args, prefix)
         instr = x86_mn()
         co = instr.asm_candidates(prefix, name, [a.copy() for a in args])
         ac = self.asm_all_candidate(prefix, co)
